@@ -19,10 +19,13 @@ import (
 
 type Item struct{ Word, Replacement string }
 
+// RuleSrc is one RuleItem literal of rules.go.
+type RuleSrc struct{ Pattern, Replacement string }
+
 type Tables struct {
 	Plural, Singular                            []Item
 	Uninflected, UninflPlurals, UninflSingulars []string
-	PluralRules, SingularRules                  int // number of suffix rules (reported only)
+	PluralRules, SingularRules                  []RuleSrc // the ordered suffix rules: pattern and ReplaceAllString template, verbatim
 	PluralUninflected, SingularUninflected      []string
 }
 
@@ -94,6 +97,47 @@ func items(cl *ast.CompositeLit) ([]Item, error) {
 	return out, nil
 }
 
+// ruleItems reads []*RuleItem{{`pattern`, `replacement`}, ...} (positional or keyed fields).
+func ruleItems(cl *ast.CompositeLit) ([]RuleSrc, error) {
+	var out []RuleSrc
+	for _, e := range cl.Elts {
+		if u, ok := e.(*ast.UnaryExpr); ok {
+			e = u.X
+		}
+		el, ok := e.(*ast.CompositeLit)
+		if !ok {
+			return nil, fmt.Errorf("rule item is not a composite literal")
+		}
+		var it RuleSrc
+		got := 0
+		for i, f := range el.Elts {
+			key := [...]string{"Pattern", "Replacement"}[min(i, 1)]
+			v := f
+			if kv, ok := f.(*ast.KeyValueExpr); ok {
+				key = kv.Key.(*ast.Ident).Name
+				v = kv.Value
+			}
+			s, ok := strLit(v)
+			if !ok {
+				return nil, fmt.Errorf("rule item field is not a string literal")
+			}
+			switch key {
+			case "Pattern":
+				it.Pattern = s
+				got++
+			case "Replacement":
+				it.Replacement = s
+				got++
+			}
+		}
+		if got != 2 && len(el.Elts) != 0 {
+			return nil, fmt.Errorf("rule item with %d fields", got)
+		}
+		out = append(out, it)
+	}
+	return out, nil
+}
+
 // LoadTables parses rules.go (the two registered Rule literals) and rule.go (the uninflected lists).
 func LoadTables(repo string) (*Tables, error) {
 	dir := filepath.Join(repo, "pkg", "inflector", "internal")
@@ -112,7 +156,7 @@ func LoadTables(repo string) (*Tables, error) {
 		}
 		var typ string
 		var irr []Item
-		nrules := 0
+		var rules []RuleSrc
 		for _, e := range cl.Elts {
 			kv, ok := e.(*ast.KeyValueExpr)
 			if !ok {
@@ -129,15 +173,15 @@ func LoadTables(repo string) (*Tables, error) {
 				}
 			case "Rules":
 				if c, ok := kv.Value.(*ast.CompositeLit); ok {
-					nrules = len(c.Elts)
+					rules, ierr = ruleItems(c)
 				}
 			}
 		}
 		switch typ {
 		case "Plural":
-			t.Plural, t.PluralRules = irr, nrules
+			t.Plural, t.PluralRules = irr, rules
 		case "Singular":
-			t.Singular, t.SingularRules = irr, nrules
+			t.Singular, t.SingularRules = irr, rules
 		default:
 			ierr = fmt.Errorf("Rule literal with unknown Type %q", typ)
 		}
@@ -232,6 +276,16 @@ func (t *Tables) Coq() string {
 	}
 	tab("plural_irregular", t.Plural)
 	tab("singular_irregular", t.Singular)
+	rul := func(rs []RuleSrc) []Item {
+		var l []Item
+		for _, r := range rs {
+			l = append(l, Item{r.Pattern, r.Replacement})
+		}
+		return l
+	}
+	// the ordered suffix rules as (pattern, template) source strings; parsed and compiled in Coq (Model/InflectorRegexp.v)
+	tab("plural_rules", rul(t.PluralRules))
+	tab("singular_rules", rul(t.SingularRules))
 	lst("uninflected_common", t.Uninflected)
 	lst("uninflected_plurals", t.UninflPlurals)
 	lst("uninflected_singulars", t.UninflSingulars)
